@@ -4,6 +4,7 @@ Theorems over the LTS `ZstdVerif.Pool.step` (Model/Pool.lean): every statement q
 (all label sequences), all thread counts, queue sizes, client programs and job bodies.
 -/
 import ZstdVerif.Lemmas.Pool
+import ZstdVerif.Lemmas.PoolLive
 
 namespace ZstdVerif.Props.C12
 open ZstdVerif.Pool
@@ -163,6 +164,142 @@ theorem worker_exits_only_on_shutdown (s : St) (i : Nat) (w : WPc) (hw : s.ws[i]
     (s.shutdown = false → ∀ body sig, stepWorker body s i sig = some ({ s with ws := s.ws.set i (.waitPop false) }, [.waitPop])) := by
   rcases hidle with rfl | rfl <;> refine ⟨fun h body sig => ?_, fun h body sig => ?_⟩ <;>
     simp [stepWorker, hw, hcond, h]
+
+
+/-! ## Liveness: no wake-up is ever lost (Lemmas/PoolLive.lean: `Live`), hence no deadlock that the pool itself causes -/
+
+/-- the "no lost wake-up" invariant is preserved by every transition taken with a legal signal choice -/
+theorem live_step {body : Job → List JOp} {s s' : St} {l : Label} {a : List Act}
+    (hl : Live s) (hi : Inv s) (hs : step body s l = some (s', a)) : Live s' := by
+  unfold step at hs
+  cases l with
+  | worker i sig =>
+    simp only at hs; split at hs
+    · rename_i hok; exact live_stepWorker hl hok hs
+    · simp at hs
+  | client i sig =>
+    simp only at hs; split at hs
+    · rename_i hok; exact live_stepClient hl hi hok hs
+    · simp at hs
+  | spuriousW i =>
+    simp only [Option.map_eq_some_iff] at hs
+    obtain ⟨s1, h1, h2⟩ := hs
+    cases h2
+    exact live_spuriousW hl h1
+  | spuriousC i =>
+    simp only [Option.map_eq_some_iff] at hs
+    obtain ⟨s1, h1, h2⟩ := hs
+    cases h2
+    exact live_spuriousC hl h1
+
+/-- ... hence it holds in every state reachable under any schedule of a pool created with at least one thread
+(POOL_create refuses 0 threads) -/
+theorem live_reachable {body : Job → List JOp} {t qs : Nat} {progs : List (List COp)} {s : St} (ht : 0 < t)
+    (hr : Reachable body (init t qs progs) s) : Live s := by
+  induction hr with
+  | refl => exact live_init t qs progs ht
+  | step hr' hs ih => exact live_step ih (inv_reachable hr') hs
+
+/-- **a queued job that may be started is never stranded**: whenever the queue is non-empty and the thread limit is not
+reached, some worker is awake - about to test the queue, or running a job after which it tests the queue - in every state
+reachable under any schedule, any client programs, any resizes. -/
+theorem job_never_stranded {body t qs progs s} (ht : 0 < t) (hr : Reachable body (init t qs progs) s)
+    (hq : s.q ≠ []) (hb : s.busy < s.limit) : ∃ w ∈ s.ws, activeW w = true := by
+  have := (live_reachable ht hr).core.pop hq hb
+  exact List.any_eq_true.mp this
+
+/-- **a blocked POOL_add is blocked for a reason**: a client asleep inside POOL_add sees a full queue of a pool that is not
+shutting down, or POOL_free has set `shutdown` and still owes the broadcast on the push condition -/
+theorem blocked_add_justified {body t qs progs s} (ht : 0 < t) (hr : Reachable body (init t qs progs) s)
+    (c : Client) (hc : c ∈ s.cs) (hpc : c.pc = .waitPush false) (j : Job) (rest : List COp) (hp : c.prog = .add j :: rest) :
+    (isFull s = true ∧ s.shutdown = false) ∨ ∃ c' ∈ s.cs, c'.pc = .freeBcastPush := by
+  have hs : s.cs.any sleepAddC = true := List.any_eq_true.mpr ⟨c, hc, by simp [sleepAddC, hpc, hp, headAdd]⟩
+  rcases (live_reachable ht hr).push.pushAdd hs with h | h
+  · exact Or.inl h
+  · obtain ⟨c', hc', hp'⟩ := List.any_eq_true.mp h
+    refine Or.inr ⟨c', hc', ?_⟩
+    rcases c' with ⟨pc, pr⟩
+    cases pc <;> simp_all [pendPushC]
+
+/-- same for a job body blocked inside POOL_add -/
+theorem blocked_worker_add_justified {body t qs progs s} (ht : 0 < t) (hr : Reachable body (init t qs progs) s)
+    (j : Job) (r : List JOp) (hw : WPc.runWaitPush j r false ∈ s.ws) :
+    (isFull s = true ∧ s.shutdown = false) ∨ ∃ c' ∈ s.cs, c'.pc = .freeBcastPush := by
+  have hs : s.ws.any sleepPushW = true := List.any_eq_true.mpr ⟨_, hw, rfl⟩
+  rcases (live_reachable ht hr).push.pushW hs with h | h
+  · exact Or.inl h
+  · obtain ⟨c', hc', hp'⟩ := List.any_eq_true.mp h
+    refine Or.inr ⟨c', hc', ?_⟩
+    rcases c' with ⟨pc, pr⟩
+    cases pc <;> simp_all [pendPushC]
+
+/-- **POOL_joinJobs sleeps only while work remains**: a client asleep inside POOL_joinJobs sees a non-empty queue or a busy
+thread (the last completion broadcasts, so it cannot sleep through quiescence) -/
+theorem blocked_join_justified {body t qs progs s} (ht : 0 < t) (hr : Reachable body (init t qs progs) s)
+    (c : Client) (hc : c ∈ s.cs) (hpc : c.pc = .waitPush false) (rest : List COp) (hp : c.prog = .joinJobs :: rest) :
+    s.q ≠ [] ∨ 0 < s.busy := by
+  have hs : s.cs.any sleepJoinC = true := List.any_eq_true.mpr ⟨c, hc, by simp [sleepJoinC, hpc, hp, headJoin]⟩
+  exact (live_reachable ht hr).push.pushJoin hs
+
+/-- **progress while work is pending** (partial: stated for states in which no job body is itself blocked inside a POOL_add on
+the pool that runs it - a client program that does that can deadlock the real pool as well): if a job is queued or running, some
+worker has an enabled critical section, under every schedule. Together with `exactly_once` this is "every accepted job is
+eventually executed" for every fair schedule. -/
+theorem work_pending_progress_partial {body t qs progs s} (ht : 0 < t) (hr : Reachable body (init t qs progs) s)
+    (hwork : s.q ≠ [] ∨ 0 < s.busy) (hnb : s.ws.any sleepPushW = false) :
+    ∃ i sig, (step body s (.worker i sig)).isSome = true := by
+  have hl := live_reachable ht hr
+  have hi := inv_reachable hr
+  obtain ⟨sig, hsig⟩ := exists_sig s
+  -- an awake worker exists
+  have hact : s.ws.any activeW = true := by
+    by_cases hb : 0 < s.busy
+    · have hb' := hi.busy
+      have : 0 < s.ws.countP isRun := by omega
+      obtain ⟨w, hw, hrun⟩ := List.countP_pos_iff.mp this
+      exact List.any_eq_true.mpr ⟨w, hw, active_of_isRun hrun⟩
+    · rcases hwork with hq | hb'
+      · exact hl.core.pop hq (by have := hl.core.lim; omega)
+      · exact absurd hb' hb
+  obtain ⟨w, hw, ha⟩ := List.any_eq_true.mp hact
+  obtain ⟨i, hi'⟩ := List.mem_iff_getElem?.mp hw
+  have hp : sleepPushW w = false := by
+    cases hx : sleepPushW w with
+    | false => rfl
+    | true => have : s.ws.any sleepPushW = true := List.any_eq_true.mpr ⟨w, hw, hx⟩; rw [hnb] at this; cases this
+  have hrw : rwpOk w = true := List.all_eq_true.mp hl.core.rwp w hw
+  refine ⟨i, sig, ?_⟩
+  unfold step
+  simp only [hsig, if_true]
+  exact stepWorker_enabled body s i sig w hi' ha hp hrw
+
+/-- **POOL_free cannot hang on the pool's account**: after `shutdown` is set, as long as some worker has not exited, either a
+worker has an enabled critical section, or the freeing client still owes a broadcast (its next step), or a job body is blocked in
+its own POOL_add. When every worker has exited the joining client's step is enabled (`free_joins_all`). -/
+theorem shutdown_progress {body t qs progs s} (ht : 0 < t) (hr : Reachable body (init t qs progs) s)
+    (hsh : s.shutdown = true) (w : WPc) (hw : w ∈ s.ws) (hne : isExited w = false) :
+    (∃ i sig, (step body s (.worker i sig)).isSome = true) ∨ s.cs.any pendFreeC = true ∨ s.ws.any sleepPushW = true := by
+  have hl := live_reachable ht hr
+  obtain ⟨sig, hsig⟩ := exists_sig s
+  by_cases hp : sleepPushW w = true
+  · exact Or.inr (Or.inr (List.any_eq_true.mpr ⟨w, hw, hp⟩))
+  · by_cases hsl : sleepPop w = true
+    · exact Or.inr (Or.inl (hl.core.popShut hsh (List.any_eq_true.mpr ⟨w, hw, hsl⟩)))
+    · have ha : activeW w = true := by
+        cases w with
+        | waitPop b => cases b <;> simp_all [sleepPop, activeW]
+        | exited => simp [isExited] at hne
+        | _ => rfl
+      obtain ⟨i, hi'⟩ := List.mem_iff_getElem?.mp hw
+      refine Or.inl ⟨i, sig, ?_⟩
+      unfold step
+      simp only [hsig, if_true]
+      exact stepWorker_enabled body s i sig w hi' ha (by simpa using hp) (List.all_eq_true.mp hl.core.rwp w hw)
+
+/-- the premises of the liveness theorems are met by real states: a client asleep in POOL_add on a full queue -/
+example : ∃ s, runLabels (fun _ => []) (init 1 0 [[.add 1, .add 2]]) [.client 0 0, .client 0 0] = some s ∧
+    s.cs.any sleepAddC = true ∧ isFull s = true := by
+  refine ⟨_, rfl, by decide, by decide⟩
 
 /-! Non-vacuity: a concrete schedule of a concrete program reaches a quiescent state with two accepted jobs. -/
 example : (runLabels (fun _ => []) (init 1 0 [[.add 1, .add 2]])
